@@ -17,7 +17,7 @@ type dataGen struct {
 	m *model
 }
 
-func (g *dataGen) draw(n int, label string) int { return rapid.IntRange(0, n-1).Draw(g.t, label) }
+func (g *dataGen) draw(n int, label string) int { return uniform(g.t, n, label) }
 
 var (
 	sampleStrings = []string{"s", "", "héllo wörld", "quote\" back\\slash /", "line\nbreak\ttab\r", "\u0001ctl\u001f", "<&>'", "😀   end", "null", "0"}
@@ -142,6 +142,7 @@ type mpos struct {
 	key    string
 	idx    int
 	isItem bool
+	cell   string // coverage cell of the enclosing field
 }
 
 func (m *model) positions(root *jv) []mpos {
@@ -157,7 +158,7 @@ func (m *model) positions(root *jv) []mpos {
 				return
 			}
 			for i, it := range p.node.arr {
-				walk(mpos{path: pathAppend(p.path, i), t: p.t.Elem, sets: p.sets, node: it, parent: p.node, idx: i, isItem: true})
+				walk(mpos{path: pathAppend(p.path, i), t: p.t.Elem, sets: p.sets, node: it, parent: p.node, idx: i, isItem: true, cell: p.cell})
 			}
 			return
 		}
@@ -173,7 +174,11 @@ func (m *model) positions(root *jv) []mpos {
 			if f.name == "__typename" && rt == m.rootName() {
 				continue
 			}
-			walk(mpos{path: pathAppend(p.path, f.key), t: f.typ, sets: f.sets, node: p.node.get(f.key), parent: p.node, key: f.key})
+			cell := "typename"
+			if f.fieldDef != nil {
+				cell = m.cellOf(f.typ)
+			}
+			walk(mpos{path: pathAppend(p.path, f.key), t: f.typ, sets: f.sets, node: p.node.get(f.key), parent: p.node, key: f.key, cell: cell})
 		}
 	}
 	walk(mpos{t: gast.NonNullNamedType(m.rootName(), nil), sets: []gast.SelectionSet{m.op.SelectionSet}, node: root})
@@ -231,6 +236,14 @@ func (p mpos) replace(nv *jv) {
 // mutate applies one mutation; returns the new root and a description ("" = nothing done).
 // rootReplace allows replacing the root value itself (driver (ii) only).
 func (g *dataGen) mutate(root *jv, rootReplace bool) (*jv, string) {
+	nr, d, cell := g.mutate1(root, rootReplace)
+	if d != "" && cell != "" {
+		d += " [" + cell + "]"
+	}
+	return nr, d
+}
+
+func (g *dataGen) mutate1(root *jv, rootReplace bool) (*jv, string, string) {
 	ps := g.m.positions(root)
 	// prefer positions below the root field level half of the time
 	p := ps[g.draw(len(ps), "pos")]
@@ -286,12 +299,12 @@ func (g *dataGen) mutate(root *jv, rootReplace bool) (*jv, string) {
 	at := op + "@" + pathKey(p.path)
 	switch op {
 	case "null":
-		return setRoot(jnull()), at
+		return setRoot(jnull()), at, p.cell
 	case "missing":
 		p.parent.del(p.key)
-		return root, at
+		return root, at, p.cell
 	case "wrongkind":
-		return setRoot(g.junkOtherThan(p.node)), at
+		return setRoot(g.junkOtherThan(p.node)), at, p.cell
 	case "arr2obj":
 		o := jobj()
 		if g.draw(2, "a2o") == 0 {
@@ -299,66 +312,66 @@ func (g *dataGen) mutate(root *jv, rootReplace bool) (*jv, string) {
 				o.set(fmt.Sprint(i), it)
 			}
 		}
-		return setRoot(o), at
+		return setRoot(o), at, p.cell
 	case "unwrap":
 		if len(p.node.arr) == 0 {
-			return setRoot(jstr("unwrapped")), at
+			return setRoot(jstr("unwrapped")), at, p.cell
 		}
-		return setRoot(p.node.arr[0]), at
+		return setRoot(p.node.arr[0]), at, p.cell
 	case "wrap-extra":
-		return setRoot(jarr(p.node)), at
+		return setRoot(jarr(p.node)), at, p.cell
 	case "append-junk":
 		var cur *jv
 		if len(p.node.arr) > 0 {
 			cur = p.node.arr[0]
 		}
 		p.node.arr = append(p.node.arr, g.junkOtherThan(cur))
-		return root, at
+		return root, at, p.cell
 	case "append-null":
 		p.node.arr = append(p.node.arr, jnull())
-		return root, at
+		return root, at, p.cell
 	case "ragged":
 		p.node.arr = append(p.node.arr, jarr(), jarr(jnull(), jnull(), jnull()))
-		return root, at
+		return root, at, p.cell
 	case "inner-scalar":
 		p.node.arr = append([]*jv{jstr("flat")}, p.node.arr...)
-		return root, at
+		return root, at, p.cell
 	case "inner-null":
 		p.node.arr = append(p.node.arr, jnull())
-		return root, at
+		return root, at, p.cell
 	case "inner-object":
 		p.node.arr = append(p.node.arr, jobj())
-		return root, at
+		return root, at, p.cell
 	case "obj2arr":
 		if g.draw(2, "o2a") == 0 {
-			return setRoot(jarr()), at
+			return setRoot(jarr()), at, p.cell
 		}
-		return setRoot(jarr(p.node)), at
+		return setRoot(jarr(p.node)), at, p.cell
 	case "tn-unknown":
 		p.node.set("__typename", jstr("Nope"))
-		return root, at
+		return root, at, p.cell
 	case "tn-missing":
 		p.node.del("__typename")
-		return root, at
+		return root, at, p.cell
 	case "tn-null":
 		p.node.set("__typename", jnull())
-		return root, at
+		return root, at, p.cell
 	case "tn-nonstring":
 		p.node.set("__typename", jnum("5"))
-		return root, at
+		return root, at, p.cell
 	case "tn-abstract-name":
 		name := def.Name
 		if def.Kind == gast.Object {
 			name = "N"
 		}
 		p.node.set("__typename", jstr(name))
-		return root, at
+		return root, at, p.cell
 	case "tn-nonmember":
 		p.node.set("__typename", jstr(g.nonMember(def)))
-		return root, at
+		return root, at, p.cell
 	case "extra-key":
 		p.node.set("zz_extra", g.junkOtherThan(nil))
-		return root, at
+		return root, at, p.cell
 	case "extra-schema-key":
 		// a real schema field that is not selected here (or is: then it overwrites with junk)
 		name := fieldName(g.draw(numKinds, "xk"), g.draw(numShapes, "xs"))
@@ -366,9 +379,9 @@ func (g *dataGen) mutate(root *jv, rootReplace bool) (*jv, string) {
 			name = "k9_" + name
 		}
 		p.node.set(name, g.junkOtherThan(nil))
-		return root, at
+		return root, at, p.cell
 	case "enum-invalid":
-		return setRoot(jstr("ZZ_NOT_A_VALUE")), at
+		return setRoot(jstr("ZZ_NOT_A_VALUE")), at, p.cell
 	case "enum-case":
 		s := "red"
 		if p.node != nil && p.node.k == jStr {
@@ -377,14 +390,14 @@ func (g *dataGen) mutate(root *jv, rootReplace bool) (*jv, string) {
 				s = strings.ToUpper(p.node.s)
 			}
 		}
-		return setRoot(jstr(s)), at
+		return setRoot(jstr(s)), at, p.cell
 	case "enum-number":
-		return setRoot(jnum("0")), at
+		return setRoot(jnum("0")), at, p.cell
 	case "num-exotic":
 		ex := []string{"1.5", "3000000000", "-1e3", "1e-7", "0.0", "9007199254740993", "1E2"}
-		return setRoot(jnum(ex[g.draw(len(ex), "numx")])), at
+		return setRoot(jnum(ex[g.draw(len(ex), "numx")])), at, p.cell
 	}
-	return root, ""
+	return root, "", ""
 }
 
 // nonMember names a real object type that is not a possible type of def ("Query" when
